@@ -387,3 +387,18 @@ Theorem C11_stream_then_corruption : forall ms bad chunks r,
       read_all (s_le m) (s_sig m) (m_body msg) = inl (s_body m)) ms msgs.
 Proof. exact stream_then_corruption. Qed.
 Print Assumptions C11_stream_then_corruption.
+
+(* the same stream taken in ONE read by the transport's reading loop under the loader's read limit
+   (feed_limited: the model of do_reading with _dbus_message_loader_get_buffer's limit): the loop terminates and
+   delivers exactly the same messages *)
+Theorem C11_stream_delivery_limited : forall ms,
+  Forall (fun m => wf_msg m = true /\ spec_nfds (s_fields m) = 0) ms ->
+  let d := concat (map spec_encode_message ms) in
+  exists l' msgs, feed_limited (S (length d)) loader_new d 0 = inl l' /\
+    outcome l' = (false, msgs) /\
+    Forall2 (fun m msg =>
+      m_header msg ++ m_body msg = spec_encode_message m /\ m_body msg = m_bodyb m /\ m_nfds msg = 0 /\
+      Forall2 (hf_ok (s_le m)) (s_fields m) (m_fields msg) /\
+      read_all (s_le m) (s_sig m) (m_body msg) = inl (s_body m)) ms msgs.
+Proof. exact stream_delivery_limited. Qed.
+Print Assumptions C11_stream_delivery_limited.
